@@ -237,7 +237,7 @@ def _abbr_iter(s, abbr):
     return s
 
 
-@rule("LEAF-BACKREF", ["C19"], floor=3)
+@rule("LEAF-BACKREF", ["C19", "C01", "C11", "C16"], floor=3)
 def leaf_backref(ctx):
     """Back-reference: an unset group matches the empty string (once(position)); an empty group likewise;
     otherwise a copy of search[s..e] is compared char by char under the flag's comparator."""
@@ -294,7 +294,18 @@ def leaf_backref(ctx):
         return r(p.ret)
 
     # check_table renders atoms with show(); our guards are pre-rendered ("raw", str)
-    return check_table("BackReference", b, paths, atoms, spec, outcome)
+    out = check_table("BackReference", b, paths, atoms, spec, outcome)
+    for i in out:
+        # what bears on which property: the comparator chosen by flag i on C11; what a group that is unset or empty
+        # matches on C16 (the nullability probe is a match against "", where such a reference has to succeed)
+        k = i.key
+        ps = {"C19", "C01"}
+        if "i=" in k or "eq_" in k or "atom-untested|i" in k:
+            ps.add("C11")
+        if "empty=T" in k or "s_set=F" in k or "e_set=F" in k or "fits=F" in k or re.search(r"atom-untested\|(empty|fits|s_set|e_set)", k) or "row[" not in k:
+            ps.add("C16")
+        i.props = sorted(ps)
+    return out
 
 
 @rule("EQCASE-TABLE", ["C11", "C19", "C13", "C01"], floor=2)
